@@ -11,6 +11,7 @@ import EPV.Gen.EosStiff_dP_drho
 import EPV.Gen.EosStiff_dP_de
 import EPV.Spec.EOS
 import EPV.Tactics
+import EPV.Lemmas.Bridge.EosTac
 
 set_option linter.all false
 
@@ -35,51 +36,51 @@ theorem stiff_inverse (γ c ρi ρ : ℝ) (hγ : γ ≠ 1) (hρ : ρ ≠ 0) : (s
   have h1 : γ - 1 ≠ 0 := sub_ne_zero.mpr hγ
   constructor
   · intro P
-    simp only [stiffEOS, epv_tree, epv_cond, epv_leaf, hρ, if_false]
-    field_simp
-    ring
+    simp only [stiffEOS]
+    epv_eos_eq
   · intro e
-    simp only [stiffEOS, epv_tree, epv_cond, epv_leaf, hρ, if_false]
-    field_simp
-    ring
+    simp only [stiffEOS]
+    epv_eos_eq
 
 /-- `de_drho`, `de_dP` are the partial derivatives of `e(ρ, P)` -/
 theorem stiff_energy_derivs (γ c ρi ρ P : ℝ) (hγ : γ ≠ 1) (hρ : ρ ≠ 0) : (stiffEOS γ c ρi).EnergyDerivsAt ρ P := by
   have h1 : γ - 1 ≠ 0 := sub_ne_zero.mpr hγ
-  set p : EosStiff_e.P := { gamma := γ, c_s := c, rho_inf := ρi } with hp
   constructor
-  · have hev : (fun r => EosStiff_e.e p r P) =ᶠ[nhds ρ] fun r => EosStiff_e.L1.e p r P := by
+  · have hev : (fun r => EosStiff_e.e { gamma := γ, c_s := c, rho_inf := ρi } r P)
+        =ᶠ[nhds ρ] fun r => EosStiff_e.L1.e { gamma := γ, c_s := c, rho_inf := ρi } r P := by
       filter_upwards [isOpen_ne.mem_nhds hρ] with r hr
-      simp only [epv_tree, epv_cond, hr, if_false]
-    refine ((EosStiff_e.L1.e_hasDerivAt_rho p ρ P (mul_ne_zero hρ h1)).congr_of_eventuallyEq hev).congr_deriv ?_
-    simp only [stiffEOS, hp, epv_tree, epv_cond, epv_deriv, epv_leaf, hρ, if_false]
-    field_simp
-    ring
-  · have hev : (fun q => EosStiff_e.e p ρ q) = fun q => EosStiff_e.L1.e p ρ q := by
+      epv_eos_at_leaf
+    epv_eos_have_cert hd : EosStiff_e.L1.e_hasDerivAt_rho { gamma := γ, c_s := c, rho_inf := ρi } ρ P
+    refine (hd.congr_of_eventuallyEq hev).congr_deriv ?_
+    simp only [stiffEOS]
+    epv_eos_eq
+  · have hev : (fun q => EosStiff_e.e { gamma := γ, c_s := c, rho_inf := ρi } ρ q)
+        = fun q => EosStiff_e.L1.e { gamma := γ, c_s := c, rho_inf := ρi } ρ q := by
       funext q
-      simp only [epv_tree, epv_cond, hρ, if_false]
-    simp only [stiffEOS, ← hp]
+      epv_eos_at_leaf
+    simp only [stiffEOS]
     rw [hev]
-    refine (EosStiff_e.L1.e_hasDerivAt_pres p ρ P).congr_deriv ?_
-    simp only [hp, epv_tree, epv_cond, epv_deriv, epv_leaf, hρ, if_false]
+    epv_eos_have_cert hd : EosStiff_e.L1.e_hasDerivAt_pres { gamma := γ, c_s := c, rho_inf := ρi } ρ P
+    refine hd.congr_deriv ?_
+    epv_eos_eq
 
 /-- `dP_drho`, `dP_de` are the partial derivatives of `P(ρ, e)` (all ρ, all γ: `P` has no guard) -/
 theorem stiff_pressure_derivs (γ c ρi ρ e : ℝ) : (stiffEOS γ c ρi).PressureDerivsAt ρ e := by
-  set p : EosStiff_P.P := { gamma := γ, c_s := c, rho_inf := ρi } with hp
-  have hev : EosStiff_P.Pfun p = EosStiff_P.L0.Pfun p := by
+  have hev : EosStiff_P.Pfun { gamma := γ, c_s := c, rho_inf := ρi }
+      = EosStiff_P.L0.Pfun { gamma := γ, c_s := c, rho_inf := ρi } := by
     funext r q
-    simp only [epv_tree]
+    epv_eos_at_leaf
   constructor
-  · simp only [stiffEOS, ← hp]
+  · simp only [stiffEOS]
     rw [hev]
-    refine (EosStiff_P.L0.Pfun_hasDerivAt_rho p ρ e).congr_deriv ?_
-    simp only [hp, epv_tree, epv_deriv, epv_leaf]
-    ring
-  · simp only [stiffEOS, ← hp]
+    epv_eos_have_cert hd : EosStiff_P.L0.Pfun_hasDerivAt_rho { gamma := γ, c_s := c, rho_inf := ρi } ρ e
+    refine hd.congr_deriv ?_
+    epv_eos_eq
+  · simp only [stiffEOS]
     rw [hev]
-    refine (EosStiff_P.L0.Pfun_hasDerivAt_sie p ρ e).congr_deriv ?_
-    simp only [hp, epv_tree, epv_deriv, epv_leaf]
-    ring
+    epv_eos_have_cert hd : EosStiff_P.L0.Pfun_hasDerivAt_sie { gamma := γ, c_s := c, rho_inf := ρi } ρ e
+    refine hd.congr_deriv ?_
+    epv_eos_eq
 
 /-- non-vacuity at the class defaults γ = 5/3, c_s² = 5/3, ρ_∞ = 1 and ρ = 1 -/
 example : (stiffEOS (5/3) (Real.sqrt (5/3)) 1).InverseAt 1 ∧ (stiffEOS (5/3) (Real.sqrt (5/3)) 1).EnergyDerivsAt 1 0 :=
